@@ -892,7 +892,8 @@ func genCase(t *rapid.T, g genOpts) kase {
 		}
 		return out
 	})
-	for _, item := range rapid.SliceOfN(itemGen, 1, g.maxItems).Draw(t, "items") {
+	minItems := rapid.SampledFrom([]int{1, 1, 4, 8}).Draw(t, "minitems") // rapid favours short slices
+	for _, item := range rapid.SliceOfN(itemGen, min(minItems, g.maxItems), g.maxItems).Draw(t, "items") {
 		for _, r := range item {
 			if len(c.Recs) < maxRecs {
 				c.Recs = append(c.Recs, r)
